@@ -53,7 +53,10 @@ pub fn run_property(prop: &str, tier: Tier, seed: u64, scale: f64) -> i32 {
             batch(&Swarm { big_skew: false }, tier, seed, 15_000, 300_000, scale),
             batch(&Swarm { big_skew: true }, tier, seed, 3_000, 60_000, scale),
         ],
-        "C05" => vec![batch(&QueryScen, tier, seed, 150_000, 3_000_000, scale)],
+        "C05" => vec![
+            batch(&QueryScen { large: false }, tier, seed, 150_000, 3_000_000, scale),
+            batch(&QueryScen { large: true }, tier, seed, 600, 30_000, scale),
+        ],
         "C06" => {
             level = "fault_enumeration";
             exhaustive = Some(false);
@@ -122,7 +125,8 @@ fn replay_dispatch(prop: &str, scenario: &str, plan: Value) -> Result<(Option<cr
         (_, "swarm") => replay_plan(&Swarm { big_skew: false }, plan),
         (_, "swarm-bigskew") => replay_plan(&Swarm { big_skew: true }, plan),
         (_, "session") => replay_plan(&Session, plan),
-        (_, "query") => replay_plan(&QueryScen, plan),
+        (_, "query") => replay_plan(&QueryScen { large: false }, plan),
+        (_, "query-large") => replay_plan(&QueryScen { large: true }, plan),
         (_, "actor") => replay_plan(&ActorScen { cap_focus: false, removal_focus: false, crash_focus: false }, plan),
         (_, "actor-crash") => replay_plan(&ActorScen { cap_focus: false, removal_focus: false, crash_focus: true }, plan),
         (_, "actor-removal") => replay_plan(&ActorScen { cap_focus: false, removal_focus: true, crash_focus: false }, plan),
@@ -243,7 +247,7 @@ pub fn determinism(prop: Option<&str>, seeds: u64) -> i32 {
     if all || p == "C13" { twice(&Offer { mode: OfferMode::Heads, large: false }, seeds, &mut bad); }
     if all || p == "C03" { twice(&Forge, seeds, &mut bad); }
     if all || p == "C04" { twice(&Swarm { big_skew: false }, seeds, &mut bad); twice(&Swarm { big_skew: true }, seeds.min(50), &mut bad); }
-    if all || p == "C05" { twice(&QueryScen, seeds, &mut bad); }
+    if all || p == "C05" { twice(&QueryScen { large: false }, seeds, &mut bad); twice(&QueryScen { large: true }, seeds.min(20), &mut bad); }
     if all || p == "C06" { twice(&Crash { long: false }, seeds.min(60), &mut bad); twice(&Crash { long: true }, seeds.min(40), &mut bad); }
     if all || p == "C07" { twice(&Docs { mode: DocsMode::Cap }, seeds, &mut bad); }
     if all || p == "C09" { twice(&Wire, seeds, &mut bad); twice(&Decoders { mode: PureMode::Codecs }, seeds, &mut bad); }
